@@ -197,10 +197,12 @@ def _write_preamble(nw: NinjaWriter):
     )
     nw.newline()
 
+    # bitmaps are rendered at this height (see write_bitmap); their metrics must agree
+    res = config.load().bitmap_resolution
     module_rule(
         nw,
         "write_font",
-        f"--config_file $config_file --glyphmap_file $glyphmap_file  --part_file $part_file --output_file $out",
+        f"--config_file $config_file --bitmap_resolution {res} --glyphmap_file $glyphmap_file  --part_file $part_file --output_file $out",
     )
     nw.newline()
 
@@ -227,7 +229,6 @@ def _write_preamble(nw: NinjaWriter):
     nw.newline()
 
     # set height only, let width scale proportionally
-    res = config.load().bitmap_resolution
     nw.rule(
         "write_bitmap",
         f"resvg -h {res} $in $out",
